@@ -5,13 +5,26 @@
    fragmentation the harness used.
    input = C02 input ++ [(returned labels...); (tail bytes...); (read fragments...)]
    output = (0 (results...)) | (-1); both paths (label list / byte stream) must agree:
-   a disagreement between them is reported as (-2). *)
+   a disagreement between them is reported as (-2).
+   SPAN case (first element an atom): (16 dims gates (x bits) (perm bits))
+   -> (nvalues rank R-in-span ((honest-in-span forgery-in-span) per output wire)):
+   the GF(2) rank / span test of Proto/SpanView.v on the symbolic view of the
+   circuit, compared with the same test on the real 128-bit labels and rows. *)
 From Coq Require Import ZArith NArith List Bool.
 From Mpc Require Import Gen.Consts Base.Sx Base.Label Base.Aes Base.Codec Circuit.Circuit Circuit.Garble
-     Circuit.RunC01 Proto.Session Proto.RunC02 Proto.Conn Proto.SessionRx.
+     Circuit.RunC01 Proto.Session Proto.RunC02 Proto.Conn Proto.SessionRx
+     Circuit.GGarble Proto.SpanView.
 Import ListNotations.
 
+Definition run_c16_span (inp : sx) : sx :=
+  let c := circuit_of_sx (nthx 1 inp) (nthx 2 inp) in
+  let pl := getLB (nthx 4 inp) in
+  let perm := fun n => nth n pl (Nat.odd n) in
+  let '(n, rk, rin, outs) := span_report perm c (getLB (nthx 3 inp)) in
+  SL [ofnat n; ofnat rk; ofB rin; SL (map (fun p => SL [ofB (fst p); ofB (snd p)]) outs)].
+
 Definition run_c16 (inp : sx) : sx :=
+  match nthx 0 inp with SZ _ => run_c16_span inp | SL _ =>
   let key := getLN (nthx 0 inp) in
   let c := circ2_of_sx inp in
   let rl := getLN (nthx 5 inp) in
@@ -33,4 +46,5 @@ Definition run_c16 (inp : sx) : sx :=
   match by_bytes with
   | Some bits => SL [SZ 0; ofLN (garbler_result c bits)]
   | None => SL [SZ (-1)]
+  end
   end.
